@@ -277,6 +277,9 @@ func (u *Unit) contractCall(st *State, instr ssa.Instruction, fs *FuncSpec, name
 		env2.names[k] = x
 	}
 	env2.old = pre
+	env2.acq = pre // acq() in a callee's postcondition: its critical section lies within the call
+	env2.calleeGhost = map[string]T{}
+	st.lastCalleeGhost = env2.calleeGhost
 	if fs.Kind == "func" {
 		env2.calleeFn = u.eng.funcByName(u.pkg, fs.Name)
 	}
@@ -407,7 +410,7 @@ func (u *Unit) havocAllExcept(st *State, why string, direct map[string]Sort) {
 
 // allocMonotone records alloc ⊆ alloc' for the references the path has named.
 func (u *Unit) allocMonotone(st *State, oa, na T) {
-	st.assume(T{fmt.Sprintf("(forall ((r!q Int)) (! (=> (select %s r!q) (select %s r!q)) :pattern ((select %s r!q))))", oa.S, na.S, na.S), SBool})
+	st.assumeDef(T{fmt.Sprintf("(forall ((r!q Int)) (! (=> (select %s r!q) (select %s r!q)) :pattern ((select %s r!q))))", oa.S, na.S, na.S), SBool})
 }
 
 func (u *Unit) framePrivate(st *State, oldHeaps, newHeaps map[string]T) {
@@ -417,7 +420,7 @@ func (u *Unit) framePrivate(st *State, oldHeaps, newHeaps map[string]T) {
 				continue
 			}
 			if heapBelongs(n, p.kind) {
-				st.assume(Eq(Select(newHeaps[n], p.ref), Select(oldHeaps[n], p.ref)))
+				st.assumeDef(Eq(Select(newHeaps[n], p.ref), Select(oldHeaps[n], p.ref)))
 			}
 		}
 	}
@@ -515,7 +518,11 @@ func (u *Unit) recordRes(evs []string, rs []callRes) []callRes {
 		}
 		for _, ev := range evs {
 			r.st.lastRes[ev] = r.val
+			if r.st.lastCalleeGhost != nil {
+				r.st.calleeGhosts[ev] = r.st.lastCalleeGhost
+			}
 		}
+		r.st.lastCalleeGhost = nil
 	}
 	return rs
 }
@@ -731,18 +738,19 @@ func (u *Unit) appendOp(st *State, instr ssa.Instruction, cc *ssa.CallCommon, ar
 	// in-place row / fresh row
 	freshArr := u.fresh("arr.append", SInt)
 	al := u.heapGet(st.view(), "alloc", ArrSort(SInt, SBool))
-	st.assume(Implies(Not(fits), And(Not(Select(al, freshArr)), Lt(IntLit(0), freshArr))))
+	st.assumeDef(Implies(Not(fits), And(Not(Select(al, freshArr)), Lt(IntLit(0), freshArr))))
 	st.private = append(st.private, privRef{freshArr, "arr:" + string(es)})
+	srcPrivate := u.isPrivateArr(st, s)
 	u.heapSet(st, "alloc", Ite(fits, al, Store(al, freshArr, True)))
 	newCap := u.fresh("cap.append", SInt)
-	st.assume(Le(newLen, newCap))
-	st.assume(Le(newCap, T{"4611686018427387904", SInt}))
+	st.assumeDef(Le(newLen, newCap))
+	st.assumeDef(Le(newCap, T{"4611686018427387904", SInt}))
 	name := func(t T, hint string) T {
 		if !strings.HasPrefix(t.S, "(") {
 			return t
 		}
 		c := u.fresh(hint, t.Sort)
-		st.assume(Eq(c, t))
+		st.assumeDef(Eq(c, t))
 		return c
 	}
 	slen, soff, sarr = name(slen, "app.len"), name(soff, "app.off"), name(sarr, "app.arr")
@@ -757,7 +765,7 @@ func (u *Unit) appendOp(st *State, instr ssa.Instruction, cc *ssa.CallCommon, ar
 	resC := name(res, "app.res")
 	sC := name(s, "app.s")
 	q := fmt.Sprintf("(forall ((a!q Int)) (! (=> (not (= a!q %s)) (= (select %s a!q) (select %s a!q))) :pattern ((select %s a!q))))", resArr.S, h2.S, h.S, h2.S)
-	st.assume(T{q, SBool})
+	st.assumeDef(T{q, SBool})
 	iq := T{"i!q", SInt}
 	var appended T
 	if lits != nil {
@@ -772,14 +780,19 @@ func (u *Unit) appendOp(st *State, instr ssa.Instruction, cc *ssa.CallCommon, ar
 	}
 	q2 := fmt.Sprintf("(forall ((i!q Int)) (! (=> (and (<= 0 i!q) (< i!q %s)) (= %s (ite (< i!q %s) %s %s))) :pattern (%s)))",
 		newLen.S, u.selem(h2, resC, iq).S, slen.S, u.selem(h, sC, iq).S, appended.S, u.selem(h2, resC, iq).S)
-	st.assume(T{q2, SBool})
+	st.assumeDef(T{q2, SBool})
 	_ = elemAt
 	row2 := Select(h2, resArr)
 	rowOld := Select(h, sarr)
 	q4 := fmt.Sprintf("(=> %s (forall ((i!q Int)) (! (=> (or (< i!q %s) (>= i!q (+ %s %s))) (= (select %s i!q) (select %s i!q))) :pattern ((select %s i!q)))))",
 		fits.S, soff.S, soff.S, newLen.S, row2.S, rowOld.S, row2.S)
-	st.assume(T{q4, SBool})
+	st.assumeDef(T{q4, SBool})
 	res = resC
+	u.sliceArr[resC.S] = resArr.S
+	if srcPrivate {
+		// appending to a private (or nil) slice yields a private slice
+		st.private = append(st.private, privRef{resArr, "arr:" + string(es)})
+	}
 	u.heapSet(st, hn, h2)
 	return res
 }
@@ -805,17 +818,17 @@ func (u *Unit) copyOp(st *State, instr ssa.Instruction, cc *ssa.CallCommon, args
 			return t
 		}
 		c := u.fresh(hint, t.Sort)
-		st.assume(Eq(c, t))
+		st.assumeDef(Eq(c, t))
 		return c
 	}
 	d, s = nm(d, "copy.dst"), nm(s, "copy.src")
 	n = nm(n, "copy.n")
 	darr, doff := app(SInt, "sarr", d), app(SInt, "soff", d)
-	st.assume(T{fmt.Sprintf("(forall ((a!q Int)) (! (=> (not (= a!q %s)) (= (select %s a!q) (select %s a!q))) :pattern ((select %s a!q))))", darr.S, h2.S, h.S, h2.S), SBool})
+	st.assumeDef(T{fmt.Sprintf("(forall ((a!q Int)) (! (=> (not (= a!q %s)) (= (select %s a!q) (select %s a!q))) :pattern ((select %s a!q))))", darr.S, h2.S, h.S, h2.S), SBool})
 	iq := T{"i!q", SInt}
-	st.assume(T{fmt.Sprintf("(forall ((i!q Int)) (! (=> (and (<= 0 i!q) (< i!q %s)) (= %s %s)) :pattern (%s)))",
+	st.assumeDef(T{fmt.Sprintf("(forall ((i!q Int)) (! (=> (and (<= 0 i!q) (< i!q %s)) (= %s %s)) :pattern (%s)))",
 		n.S, u.selem(h2, d, iq).S, u.selem(h, s, iq).S, u.selem(h2, d, iq).S), SBool})
-	st.assume(T{fmt.Sprintf("(forall ((i!q Int)) (! (=> (or (< i!q %s) (>= i!q (+ %s %s))) (= (select (select %s %s) i!q) (select (select %s %s) i!q))) :pattern ((select (select %s %s) i!q))))",
+	st.assumeDef(T{fmt.Sprintf("(forall ((i!q Int)) (! (=> (or (< i!q %s) (>= i!q (+ %s %s))) (= (select (select %s %s) i!q) (select (select %s %s) i!q))) :pattern ((select (select %s %s) i!q))))",
 		doff.S, doff.S, n.S, h2.S, darr.S, h.S, darr.S, h2.S, darr.S), SBool})
 	u.heapSet(st, hn, h2)
 	u.note("copy(dst, src): source and destination ranges assumed not to overlap when they share a backing array")
@@ -1410,4 +1423,30 @@ func (u *Unit) iterateCall(st *State, instr ssa.Instruction, fs *FuncSpec, name 
 		outs = append(outs, callRes{st: r.st, panicked: r.panicked})
 	}
 	return outs
+}
+
+// arrOf resolves the backing-array term of a slice term where the engine
+// knows it syntactically.
+func (u *Unit) arrOf(sl T) string {
+	if a, ok := u.sliceArr[sl.S]; ok {
+		return a
+	}
+	return app(SInt, "sarr", sl).S
+}
+
+// isPrivateArr: the slice is nil or its backing array is private to this activation.
+func (u *Unit) isPrivateArr(st *State, sl T) bool {
+	if sl.S == "nil_slice" {
+		return true
+	}
+	a := u.arrOf(sl)
+	if a == "0" {
+		return true
+	}
+	for _, p := range st.private {
+		if p.ref.S == a {
+			return true
+		}
+	}
+	return false
 }
